@@ -192,6 +192,11 @@ type TrimEv struct {
 	Chk    []string `json:"chk"`
 	Path   Path     `json:"path"`
 	IsOpen bool     `json:"isOpen"`
+	// the library is called on Path with every coordinate multiplied by K (up to 2^61 / extent, "all
+	// paths"); Path, Res and Res2 are logged in base coordinates (exact division; MapOK: every returned
+	// coordinate was a multiple of K) - every condition of the specification is an exact, scale-invariant one
+	K     BigJ `json:"k"`
+	MapOK bool `json:"mapOK"`
 
 	Out      string `json:"out"`
 	Ok       bool   `json:"ok"`
@@ -206,14 +211,35 @@ type TrimEv struct {
 func execTrim(r *rand.Rand, e *TrimEv) {
 	p0 := append(Path{}, e.Path...)
 	e.Ok = true
+	k := bigJToInt(e.K)
+	if k == 0 {
+		k = 1
+		e.K = bigJ64(1)
+	}
+	e.MapOK = true
+	scaled := make(clipper.Path64, len(e.Path))
+	for i, q := range e.Path {
+		scaled[i] = clipper.Point64{X: q[0] * k, Y: q[1] * k}
+	}
+	back := func(p clipper.Path64) clipper.Path64 {
+		out := make(clipper.Path64, len(p))
+		for i, q := range p {
+			if q.X%k != 0 || q.Y%k != 0 {
+				e.MapOK = false
+			}
+			out[i] = clipper.Point64{X: q.X / k, Y: q.Y / k}
+		}
+		return out
+	}
 	var res, res2, resb clipper.Path64
 	e.Out = safeCall(func() {
-		res = clipper.TrimCollinear64(to64(e.Path), e.IsOpen)
-		resb = clipper.TrimCollinear64(to64(e.Path), e.IsOpen)
+		res = clipper.TrimCollinear64(scaled, e.IsOpen)
+		resb = clipper.TrimCollinear64(scaled, e.IsOpen)
 		res2 = clipper.TrimCollinear64(res, e.IsOpen)
 	})
-	e.Res, e.Res2 = from64(res), from64(res2)
 	e.Det = equalPaths(Paths{from64(res)}, Paths{from64(resb)})
+	res, res2 = back(res), back(res2)
+	e.Res, e.Res2 = from64(res), from64(res2)
 	e.ArgsSame = equalPaths(Paths{p0}, Paths{e.Path})
 	// probes: a few points of the bounding box; the spec keeps those off the input boundary
 	e.Probes = []Pt{}
@@ -325,9 +351,30 @@ func driveTrim(r *rand.Rand, w *writer, n int) {
 		default:
 			p = trimPath(r)
 		}
-		e := &TrimEv{Ev: "Trim", Chk: chkFor("C15"), Path: p, IsOpen: r.Intn(3) == 0}
+		e := &TrimEv{Ev: "Trim", Chk: chkFor("C15"), Path: p, IsOpen: r.Intn(3) == 0, K: bigJ64(1)}
 		if e.Path == nil {
 			e.Path = Path{}
+		}
+		// a third of the small paths are trimmed at large magnitude: products of coordinate differences then
+		// exceed 64 bits and the collinearity test depends on the 128-bit multiplication
+		if b, ok := boundsOf(Paths{e.Path}); ok && r.Intn(3) == 0 {
+			ext := max64(max64(abs64(b.x0), abs64(b.x1)), max64(abs64(b.y0), abs64(b.y1))) + 1
+			if ext < 1<<15 {
+				maxK := (int64(1) << 61) / ext
+				var kk int64
+				switch r.Intn(4) {
+				case 0:
+					kk = []int64{3000000019, 10000000000, 1<<32 + 1, 1<<36 + 12345, 1<<40 - 1}[r.Intn(5)]
+				case 1:
+					kk = maxK
+				default:
+					kk = int64(1)<<uint(30+r.Intn(28)) + r.Int63n(1<<30)
+				}
+				if kk > maxK {
+					kk = maxK
+				}
+				e.K = bigJ64(kk)
+			}
 		}
 		execTrim(r, e)
 		w.emit(e)
